@@ -898,8 +898,12 @@ func ensureServiceTxn(tx WriteTxn, idx uint64, node string, preserveIndexes bool
 			service = svc.Proxy.DestinationServiceName
 		}
 		sn := structs.ServiceName{Name: service, EnterpriseMeta: svc.EnterpriseMeta}
-		if err = checkGatewayWildcardsAndUpdate(tx, idx, &sn, svc, structs.GatewayServiceKindService); err != nil {
-			return fmt.Errorf("failed updating gateway mapping: %s", err)
+		// Only local services are bound to local gateways: the gateway-services table has no peer
+		// dimension, and the cleanup in deleteServiceTxn is restricted to local services as well.
+		if svc.PeerName == "" {
+			if err = checkGatewayWildcardsAndUpdate(tx, idx, &sn, svc, structs.GatewayServiceKindService); err != nil {
+				return fmt.Errorf("failed updating gateway mapping: %s", err)
+			}
 		}
 
 		if svc.PeerName == "" && sn.Name != "" {
